@@ -28,6 +28,8 @@ CONSTANTS
   FailSaves = FALSE
   Focus = TRUE
   Record = TRUE
+  Marking = FALSE
+  WindAt = 30
   Gaps = {}
   Bugs = {}
   D = 44
